@@ -44,8 +44,8 @@ def ref_basis(name, x, m):
 # ------------------------------------------------------------------ bases
 @st.composite
 def basis_case(draw):
-    form = draw(st.sampled_from(['f8', 'f4', 'f8', 'pyfloat', 'npscalar']))
-    n = 1 if form in ('pyfloat', 'npscalar') else draw(st.integers(1, 60))
+    form = draw(st.sampled_from(['f8', 'f4', 'f8', 'pyfloat', 'npscalar', 'pyint']))
+    n = 1 if form in ('pyfloat', 'npscalar', 'pyint') else draw(st.integers(1, 60))
     x = [draw(st.one_of(st.sampled_from([-1.0, 1.0, 0.0, 0.5, -0.5]), uf)) for _ in range(n)]
     return dict(form=form, x=x, m=draw(st.sampled_from([5, 8, 12, 3, 10, 2, 7, 4, 11, 6, 9, 1])), fn=draw(st.sampled_from(['legendre', 'chebyshev', 'poly', 'chebyshev_split'])))
 
@@ -58,7 +58,9 @@ def basis_body(case):
     if case['fn'] == 'chebyshev_split' and m < 2:
         m = 2
     form = case['form']
-    if form == 'pyfloat':
+    if form == 'pyint':
+        arg = int(round(case['x'][0]))          # the scalars 0, 1, -1 as plain Python ints
+    elif form == 'pyfloat':
         arg = float(case['x'][0])
     elif form == 'npscalar':
         arg = np.float64(case['x'][0])
@@ -214,7 +216,7 @@ def tset_case(draw):
         hi = lo + draw(st.sampled_from([1.0, 3.5, 10.0, 3.0]))
         jp = dict(xjumplo=lo, xjumphi=hi, xjumpval=draw(st.sampled_from([0.5, -1.25, 3.0, 0.0])))
     return dict(ntr=ntr, nx=nx, nc=nc, func=func, xkind=xkind, rows=rows, coeff=coeff, jump=jp, ykind=draw(st.sampled_from(['exact', 'noisy'])),
-                xminmax=draw(st.sampled_from([None, None, 'wider'])), zeros=draw(st.lists(st.integers(0, ntr * nx - 1), max_size=5, unique=True)),
+                xminmax=draw(st.sampled_from([None, None, 'wider'])), rerange=draw(st.sampled_from([None, None, [2.0, 3.0], [0.0, 10.0]])), zeros=draw(st.lists(st.integers(0, ntr * nx - 1), max_size=5, unique=True)),
                 noise=[draw(uf) for _ in range(8)])
 
 
@@ -277,6 +279,17 @@ def tset_body(case):
             matters = jp['xjumpval'] != 0 and bool((X > jp['xjumplo']).any()) and bool(np.abs(ref - yo).max() > 1e-6 * scale)
             if matters:
                 note_label('jump-matters')
+    # the geometry is read from the object's attributes at evaluation time: after xmin / xmax are changed (e.g. a trace set
+    # re-used for a detector with a different read-out window) evaluation and the default grid follow the new values
+    if case.get('rerange'):
+        tset.xmin = np.float64(xmin - case['rerange'][0])
+        tset.xmax = np.float64(xmax + case['rerange'][1])
+        xmin, xmax = float(tset.xmin), float(tset.xmax)
+        xr, yr = call(traceset2xy, tset, X.copy())
+        with judge('re-ranged'):
+            refr = np.array([ref_basis(func, xnorm(X[t], True), nc).T.dot(coeff[t]) for t in range(ntr)])
+            check(bool(np.all(np.abs(np.asarray(yr, dtype='f8') - refr) <= 1e-9 * max(scale, np.abs(refr).max()))), 'tset:evaluation-ignores-changed-xmin-xmax',
+                  lambda: dict(maxdev=float(np.abs(np.asarray(yr, dtype='f8') - refr).max())))
     # default grid
     xd, yd = call(traceset2xy, tset)
     with judge('default-grid'):
